@@ -83,11 +83,21 @@ def generate(prop, rng, seed, index, tier):
     ops = []
     t = 0.0
     start_after = rng.randrange(0, len(names[npre:]) + 1)
+    deleting = rng.random() < 0.3
+    deleted = set()
     for k, n in enumerate(names[npre:]):
         if k == start_after:
             ops.append({'t': t, 'op': 'start'})
         t += rng.choice(GRID)
         ops.append({'t': t, 'op': 'create', 'name': n})
+        if deleting and rng.random() < 0.4:
+            # a consumer that removes files it is done with (or any clean-up job): paths vanish from the listing
+            existing = [x for x in names[:npre + k + 1] if x not in deleted]
+            if existing:
+                d = rng.choice(existing)
+                deleted.add(d)
+                t += rng.choice(GRID)
+                ops.append({'t': t, 'op': 'delete', 'name': d})
     if not any(o['op'] == 'start' for o in ops):
         ops.append({'t': t, 'op': 'start'})
     sink = {'kind': rng.choice(['sync', 'native', 'tornado'])}
@@ -203,7 +213,13 @@ def evaluate(prop, sc, want_trace=False):
                 seen.add(e[4])
         if not V and ended and status == 'ok':
             got = [v for _, v in emitted]
-            if sorted(got) != sorted(set(names)):
+            gone = set(o['name'] for o in sc['ops'] if o['op'] == 'delete' and not o.get('skip'))
+            # (a path deleted again before any poll listed it is never owed; what each listing owes is judged above)
+            if gone:
+                if not (set(names) - gone <= set(got) <= set(names)) or len(got) != len(set(got)):
+                    V.append(Violation('C17', 'C17.filenames', len(ev) - 1,
+                                       'filenames emitted %r, paths created: %r, deleted: %r' % (got, sorted(set(names)), sorted(gone)), node_op='filenames'))
+            elif sorted(got) != sorted(set(names)):
                 V.append(Violation('C17', 'C17.filenames', len(ev) - 1,
                                    'filenames emitted %r, paths that exist: %r' % (got, sorted(set(names))), node_op='filenames'))
         if len(names) >= 2:
@@ -213,6 +229,8 @@ def evaluate(prop, sc, want_trace=False):
                 out.probes['unsorted_listing'] = 1
             if any(len(g) >= 2 for g in gl):
                 out.probes['several_new_paths_in_one_poll'] = 1
+            if any(o['op'] == 'delete' for o in sc['ops']):
+                out.probes['paths_deleted_while_watching'] = 1
     nshort = sum(1 for e in ev if e[2] == 'cycle' and e[3] == 'read' and sc['source'].get('short') and e[4])
     if nshort:
         out.faults['short_read'] = nshort
